@@ -39,8 +39,29 @@ type C05Scenario struct {
 
 type customPanic struct{ N int }
 
+// Panic values whose own methods misbehave: rendering them (as the bus does for its observability
+// error) must not let a second panic escape.
+type ptrErr struct{ msg string }
+
+func (e *ptrErr) Error() string { return e.msg } // panics on the typed-nil pointer
+
+type ptrStringer struct{ s string }
+
+func (p *ptrStringer) String() string { return p.s } // panics on the typed-nil pointer
+
+type panickyErr struct{ N int }
+
+func (e panickyErr) Error() string { panic(fmt.Sprintf("Error() of panic value %d panics", e.N)) }
+
 func panicValue(kind, id int) any {
 	switch kind {
+	case 5:
+		var e error = (*ptrErr)(nil)
+		return e
+	case 6:
+		return (*ptrStringer)(nil)
+	case 7:
+		return panickyErr{id}
 	case 1:
 		return errors.New("boom")
 	case 2:
@@ -71,7 +92,7 @@ func genC05(rt *rapid.T) core.Scenario {
 		}}
 		if rapid.IntRange(0, 2).Draw(rt, "panics") > 0 {
 			r.PanicOn = rapid.SliceOfNDistinct(rapid.IntRange(0, 4), 1, 3, rapid.ID[int]).Draw(rt, "panicOn")
-			r.Value = rapid.IntRange(0, 4).Draw(rt, "value")
+			r.Value = rapid.IntRange(0, 7).Draw(rt, "value")
 		}
 		sc.Regs = append(sc.Regs, r)
 	}
@@ -279,6 +300,14 @@ func (sc *C05Scenario) Execute(t *testing.T) *core.Outcome {
 
 func panicValueMatches(kind, id int, got any) bool {
 	switch kind {
+	case 5:
+		e, ok := got.(*ptrErr)
+		return ok && e == nil
+	case 6:
+		e, ok := got.(*ptrStringer)
+		return ok && e == nil
+	case 7:
+		return got == panickyErr{id}
 	case 1:
 		e, ok := got.(error)
 		return ok && e.Error() == "boom"
